@@ -96,6 +96,11 @@ def gen_case(rng):
     elif sigs and p < 0.45:
         i = rng.randrange(len(sigs))
         sigs[i] = (sigs[i][0], keys(n)[0][0].sign(b"other message").signature if n else sigs[i][1])
+    elif sigs and p < 0.53:
+        # signatures of the wrong length under known ids (63, 65, 32, 1 bytes): never a valid signature
+        for i in rng.sample(range(len(sigs)), rng.choice([1, len(sigs), max(1, (3 * len(sigs)) // 4)])):
+            good = sigs[i][1]
+            sigs[i] = (sigs[i][0], rng.choice([good[:63], good + b"\x00", good[:32], good[:1], good + good]))
     sigs = [(a.hex().upper() if i in upper else a.hex(), b.hex()) for i, (a, b) in enumerate(sigs)]
     rng.shuffle(sigs)
     return {"pks": [ks[i][1].hex() for i in range(n)], "ws": ws, "sigs": sigs,
@@ -135,6 +140,19 @@ def systematic_cases():
             for k in range(n + 1):
                 sigs = [(hashlib.sha256(b"\xc6\xb4\x13H" + ks[i][1]).digest().hex(), ks[i][0].sign(msg).signature.hex()) for i in range(k)]
                 out.append({"pks": [ks[i][1].hex() for i in range(n)], "ws": [w] * n, "sigs": sigs,
+                            "root": root.hex(), "file": file.hex(), "via_tlb": False})
+    # a supermajority of known ids whose "signatures" have the wrong length (one genuine signature among them or none)
+    for n in (1, 3, 4):
+        ks = keys(n)
+        for cut in (63, 65, 1):
+            for genuine in (0, 1):
+                sigs = []
+                for i in range(n):
+                    sg = ks[i][0].sign(msg).signature
+                    if i >= genuine:
+                        sg = (sg + sg)[:cut]
+                    sigs.append((hashlib.sha256(b"\xc6\xb4\x13H" + ks[i][1]).digest().hex(), sg.hex()))
+                out.append({"pks": [ks[i][1].hex() for i in range(n)], "ws": [5] * n, "sigs": sigs,
                             "root": root.hex(), "file": file.hex(), "via_tlb": False})
     return out
 
